@@ -70,6 +70,8 @@ var c18States = []M{
 	{"cfg!": M{"a": []interface{}{1.0, M{"b": nil}}}},
 	{"k!": "v", "cfg!": M{"a": []interface{}{1.0}}, "a": 1.0, "b": "x"},
 	{"k!": nil, "a": 1.0},
+	// a permanent binding that names a node (a "return address")
+	{"to!": "n1", "k!": 1.0, "a": 1.0},
 }
 
 // C18: permanent bindings survive every action and guard behaviour.
@@ -129,7 +131,7 @@ func C18(c *vh.Ctx) {
 		}
 		return
 	}
-	c.Rule("states with 0-2 permanent ('k!', 'cfg!') and 0-2 ordinary bindings x action and guard programs (delete / overwrite / clear / fresh object / same object / empty / null / throw / non-object / native nil execution / partial execution / deep mutation; native and ECMAScript) x branch pattern (none; binding an ordinary variable; binding a permanent variable '?dev!') x node shape (action node with guarded branch and a fallback; message node with guarded branch; action node whose only branch is guarded, so that it may follow no branch; action node without branches) - Go actions also editing the map they were given and handing back another x error routing; oracle: every permanent binding present before is present and equal in any resulting state, no crash, and the step is one the reference allows. non-trivial = state has a permanent binding.")
+	c.Rule("states with 0-2 permanent ('k!', 'cfg!') and 0-2 ordinary bindings x action and guard programs (delete / overwrite / clear / fresh object / same object / empty / null / throw / non-object / native nil execution / partial execution / deep mutation; native and ECMAScript) x branch pattern (none; binding an ordinary variable; binding a permanent variable '?dev!') x node shape (action node with guarded branch and a fallback; message node with guarded branch; action node whose only branch is guarded, so that it may follow no branch; action node without branches) - Go actions also editing the map they were given and handing back another x the guarded branch's target (a node; the branch-target variable '@to!', a permanent binding that names a node) x error routing; oracle: every permanent binding present before is present and equal in any resulting state, no crash, and the step is one the reference allows. non-trivial = state has a permanent binding.")
 	var idx uint64
 	for _, native := range []bool{true, false} {
 		ps := c18Progs(native)
@@ -143,19 +145,28 @@ func C18(c *vh.Ctx) {
 					return
 				}
 				for _, pat := range []interface{}{nil, M{"a": "?x"}, M{"a": "?dev!"}} {
-					for shape := 0; shape < 4; shape++ {
+					for shape := 0; shape < 8; shape++ {
+						// shapes 4-7: the guarded branch's target is a branch-target variable that names a permanent binding
+						n1 := "n1"
+						if shape >= 4 {
+							n1 = "@to!"
+							if pat != nil && rstep.Canon(pat) != rstep.Canon(M{"a": "?x"}) {
+								continue
+							}
+						}
+						shape := shape % 4
 						var node *rstep.ANode
 						if shape == 0 {
-							node = &rstep.ANode{Action: act, Type: "bindings", Branches: []rstep.ABranch{{Pattern: pat, Guard: g, Target: "n1"}, {Target: "n2"}}}
+							node = &rstep.ANode{Action: act, Type: "bindings", Branches: []rstep.ABranch{{Pattern: pat, Guard: g, Target: n1}, {Target: "n2"}}}
 						} else if shape == 2 {
 							// no fallback: when the pattern does not match or the guard says no, the action node has
 							// followed no branch and the machine goes to the error state
 							if act == nil {
 								continue
 							}
-							node = &rstep.ANode{Action: act, Type: "bindings", Branches: []rstep.ABranch{{Pattern: pat, Guard: g, Target: "n1"}}}
+							node = &rstep.ANode{Action: act, Type: "bindings", Branches: []rstep.ABranch{{Pattern: pat, Guard: g, Target: n1}}}
 						} else if shape == 3 {
-							if act == nil || g != nil || pat != nil {
+							if act == nil || g != nil || pat != nil || n1 != "n1" {
 								continue
 							}
 							node = &rstep.ANode{Action: act, NoBranches: true}
@@ -163,7 +174,7 @@ func C18(c *vh.Ctx) {
 							if act != nil {
 								continue
 							}
-							node = &rstep.ANode{Type: "message", Branches: []rstep.ABranch{{Pattern: pat, Guard: g, Target: "n1"}, {Target: "n2"}}}
+							node = &rstep.ANode{Type: "message", Branches: []rstep.ABranch{{Pattern: pat, Guard: g, Target: n1}, {Target: "n2"}}}
 						}
 						as := &rstep.ASpec{Nodes: map[string]*rstep.ANode{"n0": node, "n1": {NoBranches: true}, "n2": {NoBranches: true}, "errh": {NoBranches: true}}}
 						spec, err := as.Build()
